@@ -240,3 +240,178 @@ func H_C02_typed() {
 	verif.Assert(verif.And(err == nil, got == j), "C02/references observe values merged in later")
 	verif.Reach("typed checked")
 }
+
+// ---- expression trees: any nesting of literals, references, operators and escapes ----
+
+type c02Expr struct {
+	kind int // 0 literal, 1 ${n}, 2 ${n:D}, 3 ${n:+A}, 4 ${n:?msg}, 5 splice L R, 6 ${${sel}} (computed name)
+	lit  int
+	name string
+	a, b *c02Expr
+}
+
+var c02Lits = []struct{ text, val string }{{"L", "L"}, {"p$$q", "p$q"}, {"p$}q", "p}q"}}
+
+// names: x set in the root, y only in an Env config, z only known to a resolver,
+// e set in the root to the empty string, u unset everywhere
+var c02Names = []string{"x", "y", "e", "u", "z"}
+
+func c02Binding(n string) (val string, set bool) {
+	switch n {
+	case "x":
+		return "X", true
+	case "y":
+		return "Y", true
+	case "z":
+		return "Z", true
+	case "e":
+		return "", true
+	}
+	return "", false
+}
+
+func genC02Expr(id string, depth int, nNames int, fullSplice bool) *c02Expr {
+	kinds := 2
+	if depth > 0 {
+		kinds = 7
+	}
+	e := &c02Expr{kind: verif.Choice(id+".kind", kinds)}
+	switch e.kind {
+	case 0:
+		e.lit = verif.Choice(id+".lit", len(c02Lits))
+	case 1, 4:
+		e.name = c02Names[verif.Choice(id+".name", nNames)]
+	case 2, 3:
+		e.name = c02Names[verif.Choice(id+".name", nNames)]
+		e.a = genC02Expr(id+".arg", depth-1, nNames, fullSplice)
+	case 5:
+		e.a = genC02Expr(id+".l", depth-1, nNames, fullSplice)
+		if fullSplice {
+			e.b = genC02Expr(id+".r", depth-1, nNames, fullSplice)
+		} else {
+			e.b = genC02Expr(id+".r", 0, nNames, fullSplice)
+		}
+	}
+	return e
+}
+
+func (e *c02Expr) text() string {
+	switch e.kind {
+	case 0:
+		return c02Lits[e.lit].text
+	case 1:
+		return "${" + e.name + "}"
+	case 2:
+		return "${" + e.name + ":" + e.a.text() + "}"
+	case 3:
+		return "${" + e.name + ":+" + e.a.text() + "}"
+	case 4:
+		return "${" + e.name + ":?custom message}"
+	case 5:
+		return e.a.text() + "-" + e.b.text()
+	}
+	return "${${sel}}"
+}
+
+const (
+	c02OK = iota
+	c02Err
+	c02Open // not pinned down by the statement
+)
+
+// eval: the statement's semantics (operands of operators are only evaluated when they are used).
+func (e *c02Expr) eval() (string, int) {
+	switch e.kind {
+	case 0:
+		return c02Lits[e.lit].val, c02OK
+	case 1:
+		v, set := c02Binding(e.name)
+		if !set {
+			return "", c02Err
+		}
+		if v == "" {
+			return "", c02Open // plain reference to a set-but-empty value
+		}
+		return v, c02OK
+	case 2:
+		if v, _ := c02Binding(e.name); v != "" {
+			return v, c02OK
+		}
+		return e.a.eval()
+	case 3:
+		if _, set := c02Binding(e.name); set {
+			return e.a.eval()
+		}
+		return "", c02OK
+	case 4:
+		if v, _ := c02Binding(e.name); v != "" {
+			return v, c02OK
+		}
+		return "", c02Err
+	case 5:
+		l, sl := e.a.eval()
+		r, sr := e.b.eval()
+		if sl == c02Open || sr == c02Open {
+			return "", c02Open
+		}
+		if sl == c02Err || sr == c02Err {
+			return "", c02Err
+		}
+		return l + "-" + r, c02OK
+	}
+	return "X", c02OK // ${${sel}} with sel = "x"
+}
+
+// H_C02_expr: expression trees of depth <= 2 against the evaluator written from the statement.
+func H_C02_expr() {
+	nNames, full := 4, false
+	if verif.Tier() > 0 {
+		nNames, full = 5, true
+	}
+	e := genC02Expr("E", 2, nNames, full)
+	want, st := e.eval()
+	if st == c02Open {
+		return
+	}
+	base := []ucfg.Option{ucfg.PathSep("."), ucfg.VarExp}
+	env, err := ucfg.NewFrom(map[string]interface{}{"y": "Y"}, base...)
+	verif.Assume(err == nil)
+	resolver := func(n string) (string, parse.Config, error) {
+		if n == "z" {
+			return "Z", parse.DefaultConfig, nil
+		}
+		return "", parse.DefaultConfig, ucfg.ErrMissing
+	}
+	opts := append(append([]ucfg.Option{}, base...), ucfg.Env(env), ucfg.Resolve(resolver))
+	text := e.text()
+	parts := []map[string]interface{}{
+		{"v": text, "sub": map[string]interface{}{"w": text}},
+		{"x": "X", "e": "", "sel": "x"},
+	}
+	route := verif.Choice("route", 3)
+	if route == 1 {
+		parts[0], parts[1] = parts[1], parts[0]
+	}
+	c := ucfg.New()
+	verif.Assert(c.Merge(parts[0], opts...) == nil && c.Merge(parts[1], opts...) == nil, "C02/expr: merges accepted")
+	var got string
+	var gerr error
+	switch route {
+	case 0, 1:
+		got, gerr = c.String("v", -1, opts...)
+	case 2:
+		sub, err := c.Child("sub", -1, opts...)
+		verif.Assert(err == nil, "C02/expr: child obtainable")
+		if err != nil {
+			return
+		}
+		got, gerr = sub.String("w", -1, opts...)
+	}
+	verif.Reach("expression evaluated")
+	if st == c02Err {
+		verif.Reach("expression must fail")
+		verif.Assert(gerr != nil, "C02/expr: evaluation fails when a used reference cannot be resolved (or :? applies)")
+	} else {
+		verif.Assert(gerr == nil && got == want, "C02/expr: nested expression yields the substituted text")
+	}
+}
